@@ -209,16 +209,116 @@ def _d4(chk, fb, fns):
     chk.floor("D4", "loops in the optimiser units", nl, 40)
 
 
+def _events(f):
+    """per CFG block, in evaluation order: ('set', key, arg text, variables read by the argument, node) |
+    ('eval', key, node) | ('write', lvalue text, node)"""
+    cfg = f.cfg
+    out = {}
+    for b, blk in cfg.blocks.items():
+        evs = []
+        for e in blk["el"]:
+            n = f.nodes.get(e)
+            if n is None:
+                continue
+            if is_call(n):
+                nm = n["callee"]["name"]
+                args = f.args(n)
+                if nm == "setValue" and "obj" in n and len(args) >= 1:
+                    o = render(f.obj(n))
+                    key = None
+                    m = re.match(r"^(\w+)\[0\]$", o)
+                    if m:
+                        key = m.group(1)
+                    elif re.sub(r"^this(\.|->)", "", o) in ("getParameter_(0)",):
+                        key = "getParameters()"
+                    if key:
+                        vars_ = {render(x) for x in walk(args[0]) if x["k"] in ("DeclRefExpr", "MemberExpr") and x.get("ty") in ("double", "const double")}
+                        evs.append(("set", key, render(args[0]), vars_, n))
+                        continue
+                if nm == "f" and len(args) == 1 and "obj" in n:
+                    evs.append(("eval", re.sub(r"^this(\.|->)", "", render(args[0])), n))
+                    continue
+                pt = n["callee"].get("ptypes") or []
+                for i_, a in enumerate(args):
+                    if i_ < len(pt) and pt[i_].endswith("&") and not pt[i_].startswith("const ") and "&&" not in pt[i_]:
+                        evs.append(("write", render(a), n))
+                if n["callee"].get("via") == "operator" and n.get("op") in ("=", "+=", "-=", "*=", "/=") and args:
+                    evs.append(("write", render(args[0]), n))
+            elif n["k"] in ("BinaryOperator", "CompoundAssignOperator") and n.get("op") in ("=", "+=", "-=", "*=", "/="):
+                evs.append(("write", render(kids(n)[0]), n))
+            elif n["k"] == "UnaryOperator" and n.get("op") in ("++", "--"):
+                evs.append(("write", render(kids(n)[0]), n))
+        out[b] = evs
+    return out
+
+
+def _d5(chk, fb, fns):
+    """evaluation-point freshness: the objective is evaluated at the abscissa that the code then labels the value with:
+    between the latest P[0].setValue(x) and f(P) nothing writes a variable x was computed from"""
+    n_eval = 0
+    for f in fns:
+        evs = _events(f)
+        cfg = f.cfg
+        for b, lst in evs.items():
+            for i_, ev in enumerate(lst):
+                if ev[0] != "eval":
+                    continue
+                key = ev[1]
+                # backward search
+                stale = None
+                found = False
+                seen = set()
+                todo = [(b, i_, frozenset())]
+                while todo and stale is None:
+                    blk, upto, W = todo.pop()
+                    hit = False
+                    Wc = set(W)
+                    for j in range(upto - 1, -1, -1):
+                        e2_ = evs[blk][j]
+                        if e2_[0] == "write":
+                            Wc.add(e2_[1])
+                        elif e2_[0] == "set" and e2_[1] == key:
+                            found = True
+                            hit = True
+                            bad = [v for v in e2_[3] if v in Wc]
+                            if bad:
+                                stale = (e2_, bad)
+                            break
+                    if hit:
+                        continue
+                    for p_ in cfg.pred[blk]:
+                        st = (p_, frozenset(Wc))
+                        if st in seen or len(seen) > 4000:
+                            continue
+                        seen.add(st)
+                        todo.append((p_, len(evs[p_]), frozenset(Wc)))
+                if not found:
+                    continue
+                n_eval += 1
+                construct = "fresh-point:%s@%s" % (key, render(ev[2])[:40])
+                # position-free construct: index among the evaluations of this function
+                if stale is None:
+                    chk.proved("D5", f.key, construct + "#%d" % n_eval, f.loc(ev[2]), "every path from the latest %s[0].setValue(..) leaves its argument untouched" % key)
+                else:
+                    se, bad = stale
+                    chk.refuted("D5", f.key, "stale-point:%s" % ",".join(sorted(bad)), f.loc(ev[2]),
+                                "the objective is evaluated with %s still set to the earlier value of %s (setValue at line %s), but %s has been changed since: the value is later recorded against the new abscissa" % (
+                                    key, se[2], se[4].get("l"), ", ".join(sorted(bad))), witness={"history": "a bracketing / line-search step that takes this branch"})
+    chk.floor("D5", "objective evaluations preceded by a setValue on the same list", n_eval, 22)
+
+
 def run(chk, fb, tier):
     chk.rule("D1", "a loop from which doStep()/step() of the same object is reachable has a condition reading nbEval_ and nbEvalMax_; optimize() overriders delegate to the capped loop")
     chk.rule("D2", "init: parameters_ = params, then autoParameter()/ignoreConstraints() under the policy test, then doInit; policy loops cover 0..size; copies re-apply; bracketing/line search get getParameters()")
     chk.rule("D3", "doStep with a backup of the objective's parameters: every 'return currentValue_' reachable after a trial f(x) is preceded by setParameters(backup) after that trial")
     chk.rule("D4", "no feasible state-preserving cycle in any loop of the optimiser units")
+    chk.rule("D5", "evaluation-point freshness: between P[0].setValue(x) and the next f(P), no variable that x was computed from is written (typestate over the flow graph, all paths)")
     fns = _fns(fb)
     chk.floor("D1", "functions in the optimiser units", len(fns), 100)
     _d1(chk, fb, fns)
     _d2(chk, fb, fns)
     _d3(chk, fb, fns)
     _d4(chk, fb, fns)
+    _d5(chk, fb, fns)
     chk.assume("nested optimiser objects (line search, meta-optimiser components) run their own capped optimize() loop")
     chk.assume("outward bracketing loops terminate for objectives bounded below (value-dependent, not decided)")
